@@ -1,18 +1,728 @@
-//! C17 — placeholder, replaced below.
+//! C17 — delivery-independent input; files stay separate; input context is exact.
+
 use super::{Budget, Property, ShrinkCaps};
 use crate::case::*;
 use crate::common::*;
+use crate::gen::*;
 use crate::rng::Rng;
+use crate::run::*;
+use crate::world::*;
 
 pub struct C17;
 
+const CONTEXT_SELECTS: &[(&str, &str)] = &[
+    ("&index", "i"),
+    ("&index-in-file", "f"),
+    ("&started-at-line-number", "sl"),
+    ("&started-at-char-number", "sc"),
+    ("&ended-at-line-number", "el"),
+    ("&ended-at-char-number", "ec"),
+    ("&file-name", "fn"),
+];
+
 impl Property for C17 {
-    fn id(&self) -> &'static str { "C17" }
-    fn level(&self) -> &'static str { "exploration" }
-    fn rule(&self) -> &'static str { "" }
-    fn assumptions(&self) -> Vec<String> { vec![] }
-    fn shrink_caps(&self) -> ShrinkCaps { ShrinkCaps { drop_pieces: true, simplify_records: false, shrink_raw: true, drop_opts: true } }
-    fn budget(&self, _tier: Tier) -> Budget { Budget { seconds: 5, max_cases: 10 } }
-    fn generate(&self, _rng: &mut Rng, _tier: Tier) -> Case { Case::new("C17", "todo") }
-    fn check(&self, _case: &Case, _ctx: &mut Ctx) -> Option<Violation> { None }
+    fn id(&self) -> &'static str {
+        "C17"
+    }
+    fn level(&self) -> &'static str {
+        "exploration"
+    }
+    fn rule(&self) -> &'static str {
+        "A scenario = one generated stream (clean or noisy, optionally with touching tokens, occasionally > 8 KiB) x one pipeline x several deliveries of the same bytes, all executed by the real code and compared: family 'delivery' = whole slice vs raw 1-byte SimSource with EINTR vs BufReader(cap in {1,2,3,5,8,64,8192}) over SimSource with seeded chunk limits and EINTR vs one real file; 'files-concat' = partition into 1..4 real files at gaps vs the unpartitioned stream on stdin (any pipeline class); 'files-separate' = partition with at least one cut inside a value, stateless pipeline, vs header + sum of solo runs per file; 'context' = the seven &-selectors checked against the byte offsets the harness knows for the records it generated (stdin with seeded chunking, or 1..4 files), with --only-objects-and-arrays on/off. evaluations = jawk executions. A scenario is non-trivial iff at least two genuinely different deliveries were compared (chunk limits, EINTR, buffer capacity, file partition) or at least one context row was checked; distinct = distinct abstract traces of non-trivial scenarios."
+    }
+    fn assumptions(&self) -> Vec<String> {
+        vec![
+            "stdin deliveries go through the SimSource stub; files are real regular files on /dev/shm (regular files never short-read), read through jawk's own BufReader<File>".into(),
+            "directories are never passed (directory listing order is outside the property)".into(),
+            "positions are byte based: off(line, col) = start of that line (lines split at LF only) + col - 1".into(),
+            "the reference for every comparison is another execution of the same jawk build".into(),
+        ]
+    }
+    fn shrink_caps(&self) -> ShrinkCaps {
+        ShrinkCaps {
+            drop_pieces: true,
+            simplify_records: true,
+            shrink_raw: false,
+            drop_opts: true,
+        }
+    }
+    fn budget(&self, tier: Tier) -> Budget {
+        match tier {
+            Tier::Quick => Budget {
+                seconds: 25,
+                max_cases: 40_000,
+            },
+            Tier::Thorough => Budget {
+                seconds: 600,
+                max_cases: 3_000_000,
+            },
+        }
+    }
+
+    fn generate(&self, rng: &mut Rng, tier: Tier) -> Case {
+        let family = match rng.below(10) {
+            0..=2 => "delivery",
+            3..=4 => "files-concat",
+            5..=6 => "files-separate",
+            _ => "context",
+        };
+        let mut case = Case::new("C17", family);
+        let big = rng.chance(1, 25);
+        let noisy = rng.chance(1, 3);
+        let max_records = if big {
+            300
+        } else if tier == Tier::Thorough {
+            40
+        } else {
+            14
+        };
+        let w = StreamWish {
+            min_records: if big { 150 } else { 0 },
+            max_records,
+            noise_eighths: if noisy { 2 } else { 0 },
+            allow_touch: family != "context" || rng.chance(1, 6),
+            spell_level: 1,
+            allow_big: true,
+            schema_only: false,
+        };
+        case.pieces = gen_stream(rng, &w);
+        match family {
+            "context" => {
+                for (sel, name) in CONTEXT_SELECTS {
+                    case.opts.push(vec!["--select".into(), format!("{sel}={name}")]);
+                }
+                if rng.chance(1, 3) {
+                    case.opts.push(vec!["--only-objects-and-arrays".into()]);
+                }
+                if noisy && rng.chance(1, 2) {
+                    case.opts.push(policy_opt(*rng.pick(&[Policy::Stderr, Policy::Ignore])));
+                }
+                // stdin with seeded chunking, or files
+                if rng.chance(1, 2) {
+                    let len = case.stream().len();
+                    case.delivery = gen_delivery(rng, len);
+                    case.set("files", 0);
+                } else {
+                    case.set("files", 1);
+                    place_cuts(rng, &mut case, false);
+                }
+            }
+            "files-separate" => {
+                let mut wish = PipeWish::any();
+                wish.max_class = Class::Stateless;
+                wish.allow_corpus = false;
+                case.opts = gen_pipe(rng, &wish).opts;
+                if noisy && rng.chance(1, 2) {
+                    case.opts.push(policy_opt(Policy::Stderr));
+                }
+                place_cuts(rng, &mut case, true);
+            }
+            "files-concat" => {
+                let mut wish = PipeWish::any();
+                wish.allow_corpus = false;
+                case.opts = gen_pipe(rng, &wish).opts;
+                if rng.chance(1, 3) {
+                    case.opts.push(policy_opt(*rng.pick(&[Policy::Panic, Policy::Stderr])));
+                }
+                place_cuts(rng, &mut case, false);
+            }
+            _ => {
+                let mut wish = PipeWish::any();
+                wish.allow_corpus = false;
+                case.opts = gen_pipe(rng, &wish).opts;
+                if rng.chance(1, 2) {
+                    case.opts.push(policy_opt(*rng.pick(&[
+                        Policy::Panic,
+                        Policy::Stderr,
+                        Policy::Stdout,
+                        Policy::Ignore,
+                    ])));
+                }
+                if rng.chance(1, 5) {
+                    // positions must not depend on chunking either
+                    case.opts.push(vec!["--select".into(), "&ended-at-char-number=ec".into()]);
+                    case.opts.push(vec!["--select".into(), "&started-at-line-number=sl".into()]);
+                    case.opts.retain(|o| o[0] != "--output-style=csv" && o[0] != "--headers");
+                }
+                case.set("dseed", (rng.next_u64() >> 1) as i64);
+            }
+        }
+        case
+    }
+
+    fn check(&self, case: &Case, ctx: &mut Ctx) -> Option<Violation> {
+        match case.family.as_str() {
+            "delivery" => check_delivery(case, ctx),
+            "files-concat" => check_files_concat(case, ctx),
+            "files-separate" => check_files_separate(case, ctx),
+            "context" => check_context(case, ctx),
+            "delivery-one" => check_delivery_one(case, ctx),
+            _ => None,
+        }
+    }
 }
+
+/// Put 0..3 file boundaries on the pieces. `inside_value`: at least one strictly inside a record.
+fn place_cuts(rng: &mut Rng, case: &mut Case, inside_value: bool) {
+    let n = case.pieces.len();
+    if n == 0 {
+        return;
+    }
+    let cuts = rng.range(if inside_value { 1 } else { 0 }, 3);
+    let mut placed_inside = false;
+    for c in 0..cuts {
+        let want_inside = inside_value && (c == 0 || rng.chance(1, 3));
+        if want_inside {
+            let recs: Vec<usize> = (0..n)
+                .filter(|i| case.pieces[*i].kind == Kind::Rec && case.pieces[*i].bytes.0.len() >= 2)
+                .collect();
+            if !recs.is_empty() {
+                let i = *rng.pick(&recs);
+                let l = case.pieces[i].bytes.0.len();
+                case.pieces[i].cut = Some(rng.range(1, l - 1));
+                placed_inside = true;
+                continue;
+            }
+        }
+        // at a gap: inside a Gap piece, or at the start of any piece
+        let i = rng.below(n);
+        let l = case.pieces[i].bytes.0.len();
+        if case.pieces[i].cut.is_some() {
+            continue;
+        }
+        case.pieces[i].cut = Some(if case.pieces[i].kind == Kind::Gap {
+            rng.below(l + 1)
+        } else {
+            0
+        });
+    }
+    let _ = placed_inside;
+}
+
+fn split_files(case: &Case) -> Vec<Vec<u8>> {
+    let stream = case.stream();
+    let mut files = Vec::new();
+    let mut prev = 0;
+    for c in case.cuts() {
+        files.push(stream[prev..c].to_vec());
+        prev = c;
+    }
+    files.push(stream[prev..].to_vec());
+    files
+}
+
+struct FilesRun {
+    out: RunOut,
+    paths: Vec<String>,
+}
+
+fn run_on_files(case: &Case, files: &[Vec<u8>], ctx: &mut Ctx) -> FilesRun {
+    let mut paths = Vec::new();
+    for f in files {
+        let p = ctx.fresh_path("f");
+        let _ = std::fs::write(&p, f);
+        paths.push(p.to_string_lossy().to_string());
+    }
+    let mut argv = case.argv();
+    argv.push("--".into());
+    argv.extend(paths.iter().cloned());
+    let mut spec = RunSpec::plain(&argv, b"");
+    spec.hash_seed = case.hash_seeds.first().copied();
+    let out = ctx.exec(spec);
+    for p in &paths {
+        let _ = std::fs::remove_file(p);
+    }
+    FilesRun { out, paths }
+}
+
+fn strip_paths(text: &[u8], paths: &[String]) -> Vec<u8> {
+    let mut s = text.to_vec();
+    for p in paths {
+        let needle = format!("{p}:").into_bytes();
+        let mut out = Vec::with_capacity(s.len());
+        let mut i = 0;
+        while i < s.len() {
+            if s[i..].starts_with(&needle) {
+                i += needle.len();
+            } else {
+                out.push(s[i]);
+                i += 1;
+            }
+        }
+        s = out;
+    }
+    s
+}
+
+fn uses_context(case: &Case) -> bool {
+    case.opts.iter().flatten().any(|t| t.contains('&'))
+}
+
+fn compare(rule: &str, what: &str, a: &RunOut, b: &RunOut, stderr_too: bool) -> Option<Violation> {
+    if let Outcome::Abort(w) = &a.outcome {
+        return viol(rule, format!("{what}: run aborted by the simulator: {w}"));
+    }
+    if a.outcome.class() != b.outcome.class() {
+        return viol(
+            rule,
+            format!(
+                "{what}: result {} differs from the reference delivery's {}",
+                a.outcome.describe(),
+                b.outcome.describe()
+            ),
+        );
+    }
+    if a.obs.stdout != b.obs.stdout {
+        return viol(
+            rule,
+            format!(
+                "{what}: stdout differs at byte {}: {} vs reference {}",
+                common_prefix(&a.obs.stdout, &b.obs.stdout),
+                show(&a.obs.stdout),
+                show(&b.obs.stdout)
+            ),
+        );
+    }
+    if stderr_too && a.obs.stderr != b.obs.stderr {
+        return viol(
+            rule,
+            format!(
+                "{what}: stderr differs: {} vs reference {}",
+                show(&a.obs.stderr),
+                show(&b.obs.stderr)
+            ),
+        );
+    }
+    None
+}
+
+fn check_delivery(case: &Case, ctx: &mut Ctx) -> Option<Violation> {
+    let input = case.stream();
+    let d0 = ctx.exec(ref_spec(case, &input));
+    if matches!(d0.outcome, Outcome::Panic(..) | Outcome::Clap(_)) {
+        ctx.stats.invalid = true;
+        ctx.jawk_panic = None;
+        return None;
+    }
+    let mut rng = Rng::new(case.param("dseed") as u64);
+    let n = if ctx.tier == Tier::Thorough { 6 } else { 4 };
+    let mut different = 0;
+    for i in 0..n {
+        let mut d = gen_delivery(&mut rng, input.len());
+        d.whole = false;
+        if i == 0 {
+            // D1: raw 1-byte requests with EINTR
+            d.bufcap = None;
+            d.chunks = vec![1];
+            if d.eintr.is_empty() {
+                d.eintr.push((input.len() / 2, 2));
+            }
+        }
+        let mut c = case.clone();
+        c.delivery = d;
+        let r = ctx.exec(case_spec(&c, &input));
+        if r.obs.intr_reads > 0 {
+            ctx.stats.probe("delivery with EINTR");
+        }
+        if r.obs.short_reads > 0 {
+            ctx.stats.probe("delivery with short reads");
+        }
+        if c.delivery.bufcap.is_some() {
+            ctx.stats.probe("delivery through harness BufReader");
+        }
+        different += 1;
+        if let Some(mut v) = compare(
+            "C17.delivery",
+            &format!("stdin delivery {:?}", c.delivery),
+            &r,
+            &d0,
+            true,
+        ) {
+            c.family = "delivery-one".into();
+            v.reduced = Some(Box::new(c));
+            return Some(v);
+        }
+    }
+    // D3: one real file (the file name appears in locations only)
+    if !uses_context(case) || !case.opts.iter().flatten().any(|t| t.contains("&file-name")) {
+        let fr = run_on_files(case, &[input.clone()], ctx);
+        let mut f = fr.out;
+        f.obs.stderr = strip_paths(&f.obs.stderr, &fr.paths);
+        f.obs.stdout = strip_paths(&f.obs.stdout, &fr.paths);
+        if input.len() > 8192 {
+            ctx.stats.probe("file larger than the 8 KiB BufReader");
+        }
+        if let Some(v) = compare("C17.delivery", "one real file vs stdin", &f, &d0, true) {
+            return Some(v);
+        }
+    }
+    ctx.stats.nontrivial = different >= 2;
+    None
+}
+
+/// replay form of a single failing stdin delivery
+fn check_delivery_one(case: &Case, ctx: &mut Ctx) -> Option<Violation> {
+    let input = case.stream();
+    let d0 = ctx.exec(ref_spec(case, &input));
+    if matches!(d0.outcome, Outcome::Panic(..) | Outcome::Clap(_)) {
+        ctx.stats.invalid = true;
+        ctx.jawk_panic = None;
+        return None;
+    }
+    let r = ctx.exec(case_spec(case, &input));
+    ctx.stats.nontrivial = true;
+    compare(
+        "C17.delivery",
+        &format!("stdin delivery {:?}", case.delivery),
+        &r,
+        &d0,
+        true,
+    )
+}
+
+fn cuts_valid_for_concat(case: &Case) -> bool {
+    case.pieces.iter().all(|p| match p.cut {
+        None => true,
+        Some(c) => match p.kind {
+            Kind::Gap => true,
+            Kind::Rec | Kind::Garbage => c == 0 || c >= p.bytes.0.len(),
+            Kind::Raw => false,
+        },
+    })
+}
+
+fn check_files_concat(case: &Case, ctx: &mut Ctx) -> Option<Violation> {
+    // with --on-error=stdout the diagnostics (file-relative positions) are part of stdout
+    if !cuts_valid_for_concat(case) || uses_context(case) || policy_of(&case.opts) == Policy::Stdout {
+        ctx.stats.invalid = true;
+        return None;
+    }
+    let input = case.stream();
+    let d0 = ctx.exec(ref_spec(case, &input));
+    if matches!(d0.outcome, Outcome::Panic(..) | Outcome::Clap(_)) {
+        ctx.stats.invalid = true;
+        ctx.jawk_panic = None;
+        return None;
+    }
+    let files = split_files(case);
+    let fr = run_on_files(case, &files, ctx);
+    ctx.stats.probe_n("files in partition", files.len() as u64);
+    if files.len() > 1 {
+        ctx.stats.nontrivial = true;
+        if files.iter().any(Vec::is_empty) {
+            ctx.stats.probe("empty file in partition");
+        }
+    }
+    // diagnostics carry file-relative positions, so only their count is compared
+    if let Some(v) = compare(
+        "C17.files-concat",
+        &format!("{} files cut at gaps vs the same bytes on stdin", files.len()),
+        &fr.out,
+        &d0,
+        false,
+    ) {
+        return Some(v);
+    }
+    let lines = |b: &[u8]| b.iter().filter(|x| **x == b'\n').count();
+    if fr.out.outcome.is_ok() && lines(&fr.out.obs.stderr) != lines(&d0.obs.stderr) {
+        return viol(
+            "C17.files-concat",
+            format!(
+                "number of diagnostics differs between {} files and stdin: {} vs {}",
+                files.len(),
+                lines(&fr.out.obs.stderr),
+                lines(&d0.obs.stderr)
+            ),
+        );
+    }
+    None
+}
+
+fn check_files_separate(case: &Case, ctx: &mut Ctx) -> Option<Violation> {
+    let class = classify(&case.opts);
+    let pol = policy_of(&case.opts);
+    if class != Class::Stateless || uses_context(case) || !matches!(pol, Policy::Ignore | Policy::Stderr) {
+        ctx.stats.invalid = true;
+        return None;
+    }
+    let files = split_files(case);
+    let header = ctx.exec(ref_spec(case, b""));
+    if !header.outcome.is_ok() {
+        ctx.stats.invalid = true;
+        ctx.jawk_panic = None;
+        return None;
+    }
+    let h = header.obs.stdout.clone();
+    let mut expect = h.clone();
+    for f in &files {
+        let solo = ctx.exec(ref_spec(case, f));
+        if !solo.outcome.is_ok() {
+            ctx.stats.invalid = true;
+            ctx.jawk_panic = None;
+            return None;
+        }
+        if !solo.obs.stdout.starts_with(&h) {
+            return viol(
+                "C17.files-separate",
+                format!("solo run of a file does not start with the header {}", show(&h)),
+            );
+        }
+        expect.extend_from_slice(&solo.obs.stdout[h.len()..]);
+    }
+    let fr = run_on_files(case, &files, ctx);
+    if case.pieces.iter().any(|p| {
+        p.kind == Kind::Rec && p.cut.map_or(false, |c| c > 0 && c < p.bytes.0.len())
+    }) {
+        ctx.stats.probe("file boundary inside a value");
+        ctx.stats.nontrivial = true;
+    }
+    if !fr.out.outcome.is_ok() {
+        return viol(
+            "C17.files-separate",
+            format!("run on {} files failed: {}", files.len(), fr.out.outcome.describe()),
+        );
+    }
+    if fr.out.obs.stdout != expect {
+        return viol(
+            "C17.files-separate",
+            format!(
+                "stdout of {} files is not header + sum of the per-file runs (a value spans two files, or state leaks across files); differs at byte {}: {} vs {}",
+                files.len(),
+                common_prefix(&fr.out.obs.stdout, &expect),
+                show(&fr.out.obs.stdout),
+                show(&expect)
+            ),
+        );
+    }
+    None
+}
+
+fn line_starts(b: &[u8]) -> Vec<usize> {
+    let mut v = vec![0];
+    for (i, x) in b.iter().enumerate() {
+        if *x == b'\n' {
+            v.push(i + 1);
+        }
+    }
+    v
+}
+
+fn off(ls: &[usize], line: u64, col: u64) -> Option<usize> {
+    if line == 0 || col == 0 {
+        return None;
+    }
+    ls.get(line as usize - 1).map(|s| s + col as usize - 1)
+}
+
+struct Known {
+    file: usize,
+    start: usize,
+    end: usize,
+    scalar: bool,
+    /// a garbage region or a skipped scalar lies between the previous processed value and this one
+    gap_before_dirty: bool,
+}
+
+fn check_context(case: &Case, ctx: &mut Ctx) -> Option<Violation> {
+    // only the seven selectors + optional only-objects + policy are understood here
+    let only_obj = has_opt(&case.opts, "--only-objects-and-arrays");
+    for o in &case.opts {
+        let ok = (o[0] == "--select" && o.len() == 2 && CONTEXT_SELECTS.iter().any(|(s, n)| o[1] == format!("{s}={n}")))
+            || o[0] == "--only-objects-and-arrays"
+            || o[0].starts_with("--on-error=");
+        if !ok {
+            ctx.stats.invalid = true;
+            return None;
+        }
+    }
+    if case.pieces.iter().any(|p| p.kind == Kind::Raw) {
+        ctx.stats.invalid = true;
+        return None;
+    }
+    let have = |n: &str| case.opts.iter().any(|o| o.len() == 2 && o[1].ends_with(&format!("={n}")));
+    let use_files = case.param("files") == 1;
+    let files: Vec<Vec<u8>> = if use_files {
+        if !cuts_valid_for_concat(case) {
+            ctx.stats.invalid = true;
+            return None;
+        }
+        split_files(case)
+    } else {
+        vec![case.stream()]
+    };
+    // what the harness knows: record spans per file
+    let cuts = if use_files { case.cuts() } else { vec![] };
+    let file_of = |o: usize| cuts.iter().filter(|c| **c <= o).count();
+    let file_base = |f: usize| if f == 0 { 0 } else { cuts[f - 1] };
+    let mut known: Vec<Known> = Vec::new();
+    let mut dirty = false;
+    let mut last_file = 0;
+    for (p, (s, e)) in case.pieces.iter().zip(case.spans()) {
+        let f = file_of(s);
+        if f != last_file {
+            dirty = false;
+            last_file = f;
+        }
+        match p.kind {
+            Kind::Rec => {
+                if p.bytes.0.is_empty() {
+                    continue;
+                }
+                let scalar = !matches!(p.bytes.0[0], b'{' | b'[');
+                if only_obj && scalar {
+                    dirty = true;
+                    continue;
+                }
+                known.push(Known {
+                    file: f,
+                    start: s - file_base(f),
+                    end: e - file_base(f),
+                    scalar,
+                    gap_before_dirty: dirty,
+                });
+                dirty = false;
+            }
+            Kind::Garbage => dirty = true,
+            _ => {}
+        }
+    }
+    let (out, paths) = if use_files {
+        let fr = run_on_files(case, &files, ctx);
+        (fr.out, fr.paths)
+    } else {
+        let input = case.stream();
+        (ctx.exec(case_spec(case, &input)), vec![])
+    };
+    if let Outcome::Abort(w) = &out.outcome {
+        return viol("C17.context", format!("run aborted by the simulator: {w}"));
+    }
+    if !out.outcome.is_ok() {
+        if matches!(out.outcome, Outcome::Panic(..)) {
+            return None; // reported by the generic panic rule
+        }
+        return viol("C17.context", format!("run failed: {}", out.outcome.describe()));
+    }
+    let text = String::from_utf8_lossy(&out.obs.stdout).to_string();
+    let rows: Vec<&str> = text.split('\n').filter(|l| !l.is_empty()).collect();
+    if rows.len() != known.len() {
+        return viol(
+            "C17.context",
+            format!(
+                "{} rows for {} processed values ({} files, only-objects={only_obj})",
+                rows.len(),
+                known.len(),
+                files.len()
+            ),
+        );
+    }
+    let lss: Vec<Vec<usize>> = files.iter().map(|f| line_starts(f)).collect();
+    let mut in_file = 0u64;
+    let mut prev: Option<(usize, usize)> = None; // (file, end offset)
+    let mut contains_violation: Option<Violation> = None;
+    for (j, (row, k)) in rows.iter().zip(known.iter()).enumerate() {
+        let v: serde_json::Value = match serde_json::from_str(row) {
+            Ok(v) => v,
+            Err(e) => {
+                return viol("C17.context", format!("row {j} is not JSON ({e}): {row}"));
+            }
+        };
+        let num = |n: &str| v.get(n).and_then(serde_json::Value::as_u64);
+        if prev.map_or(true, |p| p.0 != k.file) {
+            in_file = 0;
+            prev = None;
+        }
+        ctx.stats.probe("context rows checked");
+        ctx.stats.nontrivial = true;
+        if have("i") && num("i") != Some(j as u64) {
+            return viol("C17.index", format!("row {j}: &index is {:?}, expected {j}; row: {row}", v.get("i")));
+        }
+        if have("f") && num("f") != Some(in_file) {
+            return viol(
+                "C17.index-in-file",
+                format!("row {j} (file {}): &index-in-file is {:?}, expected {in_file}; row: {row}", k.file, v.get("f")),
+            );
+        }
+        if have("fn") {
+            let got = v.get("fn").and_then(serde_json::Value::as_str);
+            let want = if use_files { Some(paths[k.file].as_str()) } else { None };
+            if got != want {
+                return viol("C17.file-name", format!("row {j}: &file-name is {got:?}, expected {want:?}"));
+            }
+        }
+        if have("sl") && have("sc") && have("el") && have("ec") {
+            let ls = &lss[k.file];
+            let flen = files[k.file].len();
+            let (Some(sl), Some(sc), Some(el), Some(ec)) = (num("sl"), num("sc"), num("el"), num("ec")) else {
+                return viol("C17.context", format!("row {j}: position selectors missing: {row}"));
+            };
+            let (Some(s), Some(e)) = (off(ls, sl, sc), off(ls, el, ec)) else {
+                return viol(
+                    "C17.pos-lines",
+                    format!("row {j}: line numbers {sl}/{el} do not exist in a file of {} lines (lines are counted by LF); row: {row}", ls.len()),
+                );
+            };
+            // a reported line must really be the line of that offset
+            if s > flen || e > flen {
+                return viol(
+                    "C17.pos-range",
+                    format!("row {j}: range {s}..{e} exceeds the file length {flen}; row: {row}"),
+                );
+            }
+            let line_of = |o: usize| ls.iter().filter(|x| **x <= o).count() as u64;
+            if (s < flen && line_of(s) != sl) || (e < flen && line_of(e) != el) {
+                return viol(
+                    "C17.pos-lines",
+                    format!("row {j}: column runs past the end of the reported line (lines must be counted by newlines): start {sl}:{sc} end {el}:{ec}"),
+                );
+            }
+            if let Some((_, pe)) = prev {
+                if s < pe {
+                    return viol(
+                        "C17.pos-contiguous",
+                        format!("row {j}: range starts at {s}, before the previous range ended at {pe}"),
+                    );
+                }
+                if !k.gap_before_dirty && s != pe {
+                    return viol(
+                        "C17.pos-contiguous",
+                        format!("row {j}: range starts at {s} but the previous range ended at {pe} and nothing was skipped in between"),
+                    );
+                }
+            } else if !k.gap_before_dirty && s != 0 {
+                return viol(
+                    "C17.pos-contiguous",
+                    format!("row {j}: first value of file {} has start {s}, expected 0 (only whitespace precedes it)", k.file),
+                );
+            }
+            if e < k.end {
+                return viol(
+                    "C17.pos-contains",
+                    format!("row {j}: range {s}..{e} ends before the value's text {}..{} does", k.start, k.end),
+                );
+            }
+            if s > k.start && contains_violation.is_none() {
+                let touching = k.start > 0 && !matches!(files[k.file][k.start - 1], b' ' | b'\t' | b'\n' | b'\r');
+                contains_violation = viol(
+                    "C17.pos-contains",
+                    format!(
+                        "row {j}: range {s}..{e} starts after the value's text {}..{} does{}",
+                        k.start,
+                        k.end,
+                        if touching && s == k.start + 1 {
+                            " [value text directly follows the previous token without whitespace; start is one byte late]"
+                        } else {
+                            ""
+                        }
+                    ),
+                );
+            }
+            prev = Some((k.file, e));
+        } else {
+            prev = Some((k.file, 0));
+        }
+        in_file += 1;
+        let _ = k.scalar;
+    }
+    contains_violation
+}
+
